@@ -879,11 +879,11 @@ def r11_final_correction(ck, P):
         ck.incomplete(R, 'no tap correction by the accumulated sum found in create_1d_filter')
 
 
-def r12_param_block_validated(ck, P, rid='C18-R12'):
-    """T-GRD across functions: a filter kind whose fetcher indexes filter_params with a computed index (a convolution kernel read in a loop)
-    is accepted by the setter only after the length of the block has been compared with something: the setter copies n_params values into
-    its own allocation, and what the fetcher reads beyond them is outside it."""
-    R = ck.rule(rid, 'for every filter kind K whose pixel fetcher (the callee selected by the switch on image_common.filter) reads filter_params at a computed index, the function that installs filter_params has a path guarded by filter == K on which n_params takes part in a comparison before the block is installed: without it a block shorter than its header announces is copied into an allocation of n_params values and the fetcher reads past it', floor=2)
+def param_reading_filter_kinds(P):
+    """{filter enumerator value: names of the fetchers that walk filter_params for it} - the fetcher is the callee selected by a switch on
+    image_common.filter, and it reads filter_params at a computed index or through a cursor"""
+    if getattr(P, '_prfk', None) is not None:
+        return P._prfk
     readers = set()
     for g in P.functions():
         ps = [x for x in g.insts() if x.op == 'load' and g.last_field(g.path(x.a[0])) == 'image_common.filter_params']
@@ -920,6 +920,16 @@ def r12_param_block_validated(ck, P, rid='C18-R12'):
                 for cv, bb in t.d.get('cases', []):
                     if bb == s:
                         kinds.setdefault(int(cv), set()).add(g.name)
+    P._prfk = kinds
+    return kinds
+
+
+def r12_param_block_validated(ck, P, rid='C18-R12'):
+    """T-GRD across functions: a filter kind whose fetcher indexes filter_params with a computed index (a convolution kernel read in a loop)
+    is accepted by the setter only after the length of the block has been compared with something: the setter copies n_params values into
+    its own allocation, and what the fetcher reads beyond them is outside it."""
+    R = ck.rule(rid, 'for every filter kind K whose pixel fetcher (the callee selected by the switch on image_common.filter) reads filter_params at a computed index, the function that installs filter_params has a path guarded by filter == K on which n_params takes part in a comparison before the block is installed: without it a block shorter than its header announces is copied into an allocation of n_params values and the fetcher reads past it', floor=2)
+    kinds = param_reading_filter_kinds(P)
     if not kinds:
         raise AnalysisBroken('%s: no switch on image_common.filter that selects a reader of filter_params found' % rid)
     setters = [f for f in P.functions() if any(x.op == 'store' and f.last_field(f.path(x.a[1])) == 'image_common.filter_params' and x.a[0][0] != 'n' for x in f.insts()) and f.exported]
